@@ -102,6 +102,21 @@ func c09(tier string) int {
 		run.Set("states_"+store, st)
 		run.Set("transitions_"+store, tr)
 	}
+	// The verdict depends on (size, root) only - not on how the signed body
+	// spells them or on what else it carries: the same table over a small
+	// universe with every state explored from two byte-representatives and
+	// requests in six body shapes.
+	for _, store := range stores {
+		us := uni.New(ev.Seed(), 5, []int{0})
+		gs := wh.NewCPGen(us)
+		alpha := wh.AlphaOpts{MaxN: 5, AllOlds: true, Shapes: []string{"plain", "ext", "sizepad", "sizepad-ext", "looseb64", "junk1"}}
+		st, tr := wh.Search(wh.SearchOpts{U: us, Gen: gs, Store: store, Log: la, Extra: []wh.LogCfg{lb}, Alpha: alpha, Reps: 3,
+			Workers: workers(), OnStep: c09Monitor(run), Run: run})
+		totalStates += st
+		totalTrans += tr
+		run.Set("shape_states_"+store, st)
+		run.Set("shape_transitions_"+store, tr)
+	}
 	if tier == "thorough" {
 		c09Uniform(run, &totalStates, &totalTrans)
 	} else {
@@ -113,7 +128,7 @@ func c09(tier string) int {
 	run.Set("traces_validated_against_impl", totalTrans)
 	run.Set("evaluations", totalTrans)
 	run.Set("exhaustive", true)
-	run.Set("rule", "explicit-state BFS over the real Witness: states = canonical (size, root) of the stored checkpoint reached through Update; alphabet = every (old size 0..18, 2^32, 2^63, 2^64-1) x every log-signed checkpoint of main and fork F0 at sizes 0..17 x proof set (empty, correct on either branch, for s±1/n±1, first/last dropped, duplicated, zero appended, each hash bit-flipped, short hash, replayed, arbitrary) + forged + unknown-log rows; every transition compared with the reference model (wmodel). distinct_nontrivial counts distinct (state, expected verdict, request) cells inside the claim")
+	run.Set("rule", "explicit-state BFS over the real Witness: states = canonical (size, root) of the stored checkpoint reached through Update; alphabet = every (old size 0..18, 2^32, 2^63, 2^64-1) x every log-signed checkpoint of main and fork F0 at sizes 0..17 x proof set (empty, correct on either branch, for s±1/n±1, first/last dropped, duplicated, zero appended, each hash bit-flipped, short hash, replayed, arbitrary) + forged + unknown-log rows; every transition compared with the reference model (wmodel); a second search (sizes 0..5, every old size, three byte-representatives per state) submits every checkpoint in six body shapes (plain, extension lines, size with a leading zero, the same with an extension line, root in base64 with non-zero padding bits, an unknown signature line): the verdict depends on (size, root) only. distinct_nontrivial counts distinct (state, expected verdict, request) cells inside the claim")
 	run.Assumption("Ed25519 and SHA-256 are trusted; ground truth about checkpoints comes from the generator, never from parsing")
 	run.Assumption("cells the property excludes (first use with old>0 or a proof; stored 0 < submitted) are executed and counted but not judged")
 	return run.Finish()
